@@ -1,0 +1,13 @@
+package bkl
+
+// Instrumentation sites for the "verif" build tag (see verif_on.go). Without
+// the tag verifStep and verifEvent are empty functions.
+const (
+	verifSiteProcess1 = iota
+	verifSiteProcess2
+	verifSiteProcess2String
+	verifSiteMerge
+	verifSiteGet
+	verifSiteLoadFileAndParents
+	verifSiteCount
+)
